@@ -125,6 +125,12 @@ def materialise(root, entries):
             _utime(p, e)
         elif k == "z":
             write_zip(p, e.get("members", []), e.get("compress", False))
+            if e.get("prefix"):
+                # data in front of the first record (self-extracting stub, launcher script): still a readable archive
+                with open(p, "rb") as f:
+                    body = f.read()
+                with open(p, "wb") as f:
+                    f.write(e["prefix"] + body)
             os.chmod(p, e.get("mode", 0o644))
             _utime(p, e)
         elif k == "h":
